@@ -38,7 +38,7 @@ def usable_bases(rm, pool=ROLES_PLAIN):
 def rand_tree(rng, rm=None, n_nodes=None, p_reent=0.35, p_const=0.4, p_inv=0.3,
               p_noconcept=0.2, p_aln=0.2, max_branch=4, allow_empty_target=False,
               deep=False, extra_roles=(), no_constants_like=None, inv_attr=True,
-              concepts=None, syms=None):
+              concepts=None, syms=None, roles=None):
     """Well-formed tree (WF-T): every variable defined once, denoted triples
     pairwise distinct (as strings), canonical inversion, no inverted self loop.
     *no_constants_like*: predicate on a constant text to exclude (C10 proviso).
@@ -60,7 +60,7 @@ def rand_tree(rng, rm=None, n_nodes=None, p_reent=0.35, p_const=0.4, p_inv=0.3,
     for v in variables[1:]:
         children[parent[v]].append(v)
     denoted = set()
-    bases = usable_bases(rm, ROLES_PLAIN + list(extra_roles))
+    bases = usable_bases(rm, list(roles) if roles else ROLES_PLAIN + list(extra_roles))
     syms_ = [c for c in (syms or (SYMS + STRS)) if c not in varset]
     if no_constants_like:
         syms_ = [c for c in syms_ if not no_constants_like(c)]
